@@ -6,6 +6,7 @@ import common
 pid = sys.argv[1]; tier = sys.argv[2] if len(sys.argv) > 2 else "quick"
 fn = sys.argv[3] if len(sys.argv) > 3 else "run"
 mod = importlib.import_module("props." + pid.lower())
+print("harness build:", common.build_harness()[:2], "driver:", common.build_driver()[0])
 o = common.Outcome(pid)
 if fn == "run":
     mod.run(o, tier, 1)
